@@ -105,6 +105,8 @@ def parse_records(text):
                 last.post.append((eid, d))
         elif t == "O":
             cur.oom = kvs(l)
+        elif t == "H":
+            cur.ledger = kvs(l)
         elif t == "P" or t == "Q":
             cur.precond = getattr(cur, "precond", []) + [l]
         elif t == "X" and last is not None:
